@@ -2,7 +2,7 @@
    Only statements, `exact`, and Print Assumptions.
    Labels: 0 = indexed label; property names: 1 = indexed property.
    The witness histories w_backfill, w_label, w_numeric, w_good are defined in IndexSem/Proofs.v. *)
-From NDB Require Import Base.Bytes Index.OrderedKey IndexSem.Model IndexSem.Proofs IndexSem.CyEq.
+From NDB Require Import Base.Bytes Index.OrderedKey IndexSem.Model IndexSem.Proofs IndexSem.Twin_proofs IndexSem.CyEq.
 From NDB Require Import Cypher.Value Cypher.Compare.
 Open Scope N_scope.
 
@@ -65,20 +65,35 @@ Print Assumptions C15_seek_scan_state.
 
 (* history level, for every history, label and predicate list: if no step gives the indexed
    label to a node that was not created with it or resynchronises the store (`good`), the index
-   is transparent.  The remaining hypothesis `k_numeric ... = false` is not a class of inputs
-   any more: it says that for the sought value v0 no live labelled node stores an equal number
-   of the other numeric type whose encoding differs from the encoding of numeric_twin(v0) —
-   the arithmetic fact "the twin conversion is exact", which is not proved here and is instead
-   evaluated on every query of every correspondence case (Corr/C15.v; a hit is a violation). *)
+   is transparent.  No arithmetic side condition is left: the numeric twin lookup is proved exact
+   and complete for every i64 and every double (C15_twin_complete below). *)
 Definition C15_index_transparent_statement : Prop :=
   forall il ik (h : list op) l preds,
     good il ik h = true ->
     typed_props preds = true ->
-    (forall k0 v0 rest, preds = (k0, v0) :: rest -> k_numeric il ik (run il ik h) v0 = false) ->
     seek_eval il ik (run il ik h) l preds = scan_eval (run il ik h) l preds.
 Theorem C15_index_transparent : C15_index_transparent_statement.
-Proof. exact index_transparent. Qed.
+Proof. exact index_transparent_full. Qed.
 Print Assumptions C15_index_transparent.
+
+(* the numeric twin: float_bits_of_int names exactly the integer, answers whenever a double is that
+   integer, and a stored number that `=` the sought value in the other numeric type sits under the
+   encoding of the sought value's twin; so `k_numeric` never holds on a state of a good history *)
+Definition C15_twin_complete_statement : Prop :=
+  (forall x y', in_i64 x = true -> float_bits_of_int x = Some y' ->
+     y' < two64 /\ f_exact y' = Some (i_exact x)) /\
+  (forall x y, in_i64 x = true -> y < two64 -> f_exact y = Some (i_exact x) ->
+     exists y', float_bits_of_int x = Some y') /\
+  (forall w v, typed w = true -> typed v = true -> oeq_true w v = true -> kind w <> kind v ->
+     twin_hit w v = true) /\
+  (forall il ik h v, good il ik h = true -> typed v = true -> k_numeric il ik (run il ik h) v = false).
+Theorem C15_twin_complete : C15_twin_complete_statement.
+Proof.
+  exact (conj (fun x y' H1 H2 => let '(conj A (conj _ C)) := fbi_exact x y' H1 H2 in conj A C)
+        (conj fbi_complete (conj twin_complete
+              (fun il ik h v G T => k_numeric_false il ik _ v (inv_run il ik h G) T)))).
+Qed.
+Print Assumptions C15_twin_complete.
 
 (* the hypotheses are met by a history in which the seek is really taken and stale entries,
    a deleted node, a label removal, an update and a compaction occur *)
